@@ -95,7 +95,7 @@ def main():
             from pyvc.driver import Verifier
             v = Verifier(REPO)
             tmo = 20000 if tier == 'quick' else 60000
-            results, reports, tg = v.run(cfg.get('functions', []), cfg.get('lemmas', []), timeout_ms=tmo)
+            results, reports, tg = v.run(cfg.get('functions', []), cfg.get('lemmas', []), timeout_ms=tmo, extra=cfg.get('extra', []))
             ded['gen_time'] = tg
             for r in reports:
                 ded['functions'].append(dict(function=r.key, source_sha=r.sha, paths=r.paths, seconds=round(r.time, 2)))
